@@ -25,6 +25,14 @@ func openBleveIndex(path string) (*bleveIndex, error) {
 		return &bleveIndex{path: path, index: index}, nil
 	}
 
+	// The index doesn't exist yet, or it can't be opened, for instance because a previous
+	// process died while creating it. bleve refuses to create an index over leftovers, so
+	// start again from nothing: an index only holds data that is rebuilt from the entities.
+	err = os.RemoveAll(path)
+	if err != nil {
+		return nil, err
+	}
+
 	b := &bleveIndex{path: path}
 	err = b.makeIndex()
 	if err != nil {
